@@ -30,6 +30,17 @@ func genAuthHistory(t *rapid.T, w cfggen.World, scope string, maxScripts int) ([
 		scripts = append(scripts, sc)
 		total += len(sc.Pkts)
 	}
+	// sometimes one more login reuses the session id of an earlier script after that one is over
+	var late *authScript
+	if rapid.Bool().Draw(t, "reuse_session") {
+		i := rapid.IntRange(0, n-1).Draw(t, "reuse_of")
+		sc, ok := genCleanLogin(t, w, scope, scripts[i].Session)
+		if !ok || rapid.IntRange(0, 3).Draw(t, "late_any_flavour") == 0 {
+			sc = genAuthScript(t, w, scope, scripts[i].Session)
+		}
+		sc.After = i + 1
+		late = &sc
+	}
 	var order []int
 	left := make([]int, n)
 	for i := range left {
@@ -42,6 +53,15 @@ func genAuthHistory(t *rapid.T, w cfggen.World, scope string, maxScripts int) ([
 		}
 		left[i]--
 		order = append(order, i)
+	}
+	if late != nil {
+		// its turns go anywhere in the order; at run time a turn that comes before the earlier session
+		// is over is postponed, and once the id has been taken over the earlier script stops
+		scripts = append(scripts, *late)
+		for range late.Pkts {
+			pos := rapid.IntRange(0, len(order)).Draw(t, "late_turn")
+			order = append(order[:pos], append([]int{len(scripts) - 1}, order[pos:]...)...)
+		}
 	}
 	return scripts, order
 }
@@ -99,10 +119,26 @@ func runC10(t failer, c c10Case) (events []authEvent) {
 		exp[i] = destined(c.World, c.Scope, sc)
 		sound[i] = newAuthSound()
 	}
-	for _, i := range c.Order {
+	over := make([]bool, len(c.Scripts)) // the script's session is over on the server (final status seen last)
+	order := append([]int{}, c.Order...)
+	postponed := 0
+	for k := 0; k < len(order); k++ {
+		i := order[k]
 		pktIdx := r.next[i]
 		if pktIdx >= len(c.Scripts[i].Pkts) {
 			continue
+		}
+		if a := c.Scripts[i].After; a > 0 && pktIdx == 0 {
+			if !over[a-1] {
+				// the session whose id would be reused is still waiting for a continuation (reusing
+				// the id now would be a sequence violation, not this property's business): try again
+				// at the end, a bounded number of times
+				if postponed++; postponed <= 2*len(c.Order) && r.next[a-1] < len(c.Scripts[a-1].Pkts) {
+					order = append(order, i)
+				}
+				continue
+			}
+			r.next[a-1] = len(c.Scripts[a-1].Pkts) // the id now belongs to this script
 		}
 		justified := sound[i].passJustified(c.World, c.Scope, c.Scripts[i].Pkts[pktIdx])
 		e, ok, err := r.step(i)
@@ -121,6 +157,7 @@ func runC10(t failer, c c10Case) (events []authEvent) {
 				fail("correct-login-not-passed", "script %d (%s): a well-formed login with the right password must be answered %v; packet %d got %d replies, status %d (%q)", i, c.Scripts[i].Flavour, exp[i], pktIdx, e.Replies, e.Status, e.Msg)
 			}
 		}
+		over[i] = e.Replies == 1 && finalStatus(e.Status)
 		if e.Replies != 1 || finalStatus(e.Status) {
 			sound[i] = newAuthSound()
 		}
@@ -170,6 +207,12 @@ func classifyC10(c c10Case, events []authEvent) {
 	ev.Class("format:" + c.Format)
 	if len(c.Scripts) > 1 {
 		ev.Class("interleaved-sessions")
+	}
+	for _, sc := range c.Scripts {
+		if sc.After > 0 {
+			ev.Class("session-id-reused-after-finish")
+			nt = true
+		}
 	}
 	if nt {
 		ev.NonTrivial("c10", c)
